@@ -435,8 +435,9 @@ func c15Intake(r *hx.Run, p protocol.Protocol) {
 		{"garbage", []byte(`{"type":"update"`), false},
 		{"create-invalid-delta", fx.NewPool(fx.Ed25519, fx.SHA256, "invalid").Get("C").Req, false},
 		{"create-hash-mismatch", pool.Get("C~h").Req, false},
+		{"create-delta-does-not-apply", fx.NewPool(fx.P256, fx.SHA256, "applyfails").Get("C").Req, false}, // valid delta, empty document: refused after validation
 	}
-	c15IntakeRealWriter(r, ns, client, func() *processor.OperationProcessor { return processor.New("verif", storeFunc(storeFor), client) }, append(append([]intakeReq{}, reqs[:5]...), reqs[8]))
+	c15IntakeRealWriter(r, ns, client, func() *processor.OperationProcessor { return processor.New("verif", storeFunc(storeFor), client) }, append(append([]intakeReq{}, reqs[:5]...), reqs[8], reqs[len(reqs)-1]))
 	allTypes := []operation.Type{operation.TypeCreate, operation.TypeUpdate, operation.TypeRecover, operation.TypeDeactivate}
 	for seqLen := 1; seqLen <= 2; seqLen++ {
 		tuples(len(reqs), seqLen, func(idx []int) {
